@@ -10,7 +10,7 @@
 (***************************************************************************)
 EXTENDS ScalarField, TLC, FiniteSets
 
-VARIABLES kind, a, b
+VARIABLES mKind, mA, mB
 
 ZN == 0..(N - 1)
 
@@ -31,29 +31,29 @@ RECURSIVE FoldAdd(_, _), FoldMul(_, _)
 FoldAdd(acc, vec) == IF Len(vec) = 0 THEN acc ELSE FoldAdd(SAdd(acc, vec[1]), Tail(vec))
 FoldMul(acc, vec) == IF Len(vec) = 0 THEN acc ELSE FoldMul(SMul(acc, vec[1]), Tail(vec))
 
-Init == \/ kind = "pair" /\ a \in ZN /\ b \in ZN
-        \/ kind = "byte" /\ a \in 0..(TwoW - 1) /\ b = 0
-Next == kind' = "done" /\ kind # "done" /\ UNCHANGED <<a, b>>
+Init == \/ mKind = "pair" /\ mA \in ZN /\ mB \in ZN
+        \/ mKind = "byte" /\ mA \in 0..(TwoW - 1) /\ mB = 0
+Next == mKind' = "done" /\ mKind # "done" /\ UNCHANGED <<mA, mB>>
 
-PairInv == kind = "pair" =>
-  /\ SAdd(a, b) \in ZN /\ SSub(a, b) \in ZN /\ SMul(a, b) \in ZN /\ SNeg(a) \in ZN
-  /\ SAdd(SSub(a, b), b) = a
-  /\ SAdd(a, SNeg(a)) = 0
-  /\ SSqr(a) = SMul(a, a)
-  /\ (a # 0 => SMul(a, SInv(a)) = 1) /\ SInv(0) = 0
-  /\ SPow2k(a, 1) = SSqr(a) /\ SPow2k(a, 2) = SSqr(SSqr(a))
-  /\ (SGreaterThanHalfN(a) <=> a > (N - 1) \div 2)
-  /\ (SGreaterThanHalfN(a) <=> GtHalfAlg(a))
-  /\ (a # 0 => (SGreaterThanHalfN(a) <=> ~SGreaterThanHalfN(SNeg(a))))      \* exactly one of s, n-s is "low" (n odd)
+PairInv == mKind = "pair" =>
+  /\ SAdd(mA, mB) \in ZN /\ SSub(mA, mB) \in ZN /\ SMul(mA, mB) \in ZN /\ SNeg(mA) \in ZN
+  /\ SAdd(SSub(mA, mB), mB) = mA
+  /\ SAdd(mA, SNeg(mA)) = 0
+  /\ SSqr(mA) = SMul(mA, mA)
+  /\ (mA # 0 => SMul(mA, SInv(mA)) = 1) /\ SInv(0) = 0
+  /\ SPow2k(mA, 1) = SSqr(mA) /\ SPow2k(mA, 2) = SSqr(SSqr(mA))
+  /\ (SGreaterThanHalfN(mA) <=> mA > (N - 1) \div 2)
+  /\ (SGreaterThanHalfN(mA) <=> GtHalfAlg(mA))
+  /\ (mA # 0 => (SGreaterThanHalfN(mA) <=> ~SGreaterThanHalfN(SNeg(mA))))      \* exactly one of s, n-s is "low" (n odd)
   /\ SSum(<<>>) = 0 /\ SProduct(<<>>) = 1
-  /\ SSum(<<a, b, a>>) = (a + b + a) % N /\ SProduct(<<a, b, b>>) = (a * b * b) % N
-  /\ FoldAdd(0, <<a, b, a>>) = SSum(<<a, b, a>>) /\ FoldMul(1, <<b, a, b>>) = SProduct(<<b, a, b>>)
+  /\ SSum(<<mA, mB, mA>>) = (mA + mB + mA) % N /\ SProduct(<<mA, mB, mB>>) = (mA * mB * mB) % N
+  /\ FoldAdd(0, <<mA, mB, mA>>) = SSum(<<mA, mB, mA>>) /\ FoldMul(1, <<mB, mA, mB>>) = SProduct(<<mB, mA, mB>>)
 
-ByteInv == kind = "byte" =>
-  /\ ReduceSaturatedN(a) = SDecode(a)
-  /\ SDecode(a)[1] = a % N /\ (SDecode(a)[2] = 1 <=> a >= N)
-  /\ (SDecodeCanonical(a)[1] = "ok" <=> a < N)
-  /\ (SDecodeCanonical(a)[1] = "ok" => SDecodeCanonical(a)[2] = a)
+ByteInv == mKind = "byte" =>
+  /\ ReduceSaturatedN(mA) = SDecode(mA)
+  /\ SDecode(mA)[1] = mA % N /\ (SDecode(mA)[2] = 1 <=> mA >= N)
+  /\ (SDecodeCanonical(mA)[1] = "ok" <=> mA < N)
+  /\ (SDecodeCanonical(mA)[1] = "ok" => SDecodeCanonical(mA)[2] = mA)
 
 ASSUME TwoW < 2 * N      \* one conditional subtraction suffices, as for the real n
 =============================================================================
